@@ -51,7 +51,7 @@ let show_err e = Printf.sprintf "(e %s (%s))" (decimal_of_n e.ge_kind) (String.c
 let handle (x : sexp) : (string * string) list =
   match x with
   | L [A "c02"; tree; data; L (A "deny" :: denies); L [A "out"; S out]; L [A "data"; S idata]; L (A "errs" :: ierrs);
-       L [A "valid"; valid]; L [A "env"; env]; L [A "status"; A status]; L [A "mut"; S mut]] ->
+       L [A "valid"; valid]; L [A "env"; env]; L [A "status"; A status]; L [A "dtree"; dtree]; L [A "mut"; S mut]] ->
     let root = node_of tree and j = json_of data in
     let dl = List.map str denies in
     let deny t f = List.mem (string_of_bytes t ^ "." ^ string_of_bytes f) dl in
@@ -74,7 +74,24 @@ let handle (x : sexp) : (string * string) list =
     if status = "panic" then add "specfail" "no_panic renderer panicked";
     if status <> "panic" && not (sbool valid) then add "specfail" "render_valid_json output is not valid JSON";
     if status <> "panic" && sbool valid && not (sbool env) then add "specfail" "envelope_shape";
-    let nontrivial = mut <> "" && mut <> "none" in
+    (* the one-pass completion semantics and the independent type-safety checker, on the implementation's output *)
+    let wf = root_wf root in
+    if not wf then add "error" "generator produced a plan outside plan_wf";
+    let (ctree, cerrs) = complete_root deny root j in
+    (match dtree with
+     | L [A "some"; dt] when status <> "panic" ->
+       let it = json_of dt in
+       let expected = match ctree with Some t -> t | None -> JNull in
+       if not (json_eqb it expected) then
+         add "specfail" (Printf.sprintf "complete_eq data differs from the completion semantics: expected %s" (quote_string (string_of_bytes (data_bytes ctree))));
+       (match it with
+        | JNull -> ()
+        | _ -> if not (conforms_b root j [] it) then add "specfail" "typesafe rendered data does not conform to the plan (kinds / exact keys)");
+       let cerrs' = String.concat " " (List.map show_err cerrs) in
+       let ierrs' = String.concat " " (List.map print_sexp ierrs) in
+       if cerrs' <> ierrs' then add "specfail" (Printf.sprintf "errors_eq expected [%s] got [%s]" cerrs' ierrs')
+     | _ -> ());
+    let nontrivial = (mut <> "" && mut <> "none") && cerrs <> [] in
     if !res = [] then [("ok", if nontrivial then "nt" else "tr")] else List.rev !res
   | _ -> [("error", "unrecognised case")]
 
